@@ -26,10 +26,17 @@
 (*   enabled : BOOLEAN   params.EnableCoinomics                            *)
 (*   coeff   : decimal   params.RewardCoefficient, in percent (Dec18       *)
 (*                       mantissa, "7800000000000000000" = 7.8 %)          *)
-(*   max     : integer   MaxSupply                                         *)
+(*   max     : integer   MaxSupply, the amount                             *)
+(*   maxDenom: string    MaxSupply, the denomination label it is stored    *)
+(*                       with (MaxSupply is a coin; genesis validation and *)
+(*                       the keeper accept any label).  The statement      *)
+(*                       knows one coin - the native one, whose supply the *)
+(*                       maximum bounds - so no clause of P reads the      *)
+(*                       label: whatever it says, `max` bounds `supply`    *)
 (*   prevTs  : integer   PrevBlockTS (ms); only M and the labels of        *)
 (*                       violations use it, never a clause of P            *)
-(*   supply  : integer   bank supply of aISLM                              *)
+(*   supply  : integer   bank supply of the native coin (params.MintDenom, *)
+(*                       aISLM in every scenario)                          *)
 (*   bonded  : integer   staking TotalBondedTokens (bonded pool balance)   *)
 (*   fee     : integer   balance of the fee collector                      *)
 (* Integers are decimal strings (BigNum); timestamps are Unix milliseconds.*)
@@ -59,6 +66,8 @@ CONSTANTS
     Bondeds,     \* bonded amounts
     Coeffs,      \* reward coefficients (percent, Dec18 mantissa)
     MaxDists,    \* distances max - supply the cap is placed at (may be <= 0)
+    MaxAbs,      \* absolute values the cap is configured to, whatever the supply is (zero, one, ...)
+    MaxDenoms,   \* denomination labels MaxSupply is stored with
     ExtDeltas,   \* supply changes by other modules between blocks
     InitSupply,  \* bank supply before the scenario's set-up
     MaxLen,      \* bound on the length of a behaviour
@@ -188,10 +197,11 @@ EnvPost(s, ev, args) ==
       [] ev = "set_bonded"  -> \* raising the bonded pool mints the difference, lowering it moves coins out
                                [s EXCEPT !.bonded = args.bonded,
                                          !.supply = BigAdd(@, BigMax("0", BigSub(args.bonded, s.bonded)))]
-      [] ev = "set_max"     -> [s EXCEPT !.max = BigAdd(s.supply, args.dist)]
+      [] ev = "set_max"     -> [s EXCEPT !.max = BigAdd(s.supply, args.dist), !.maxDenom = args.denom]
+      [] ev = "set_max_abs" -> [s EXCEPT !.max = args.max, !.maxDenom = args.denom]
       [] ev = "ext_supply"  -> [s EXCEPT !.supply = BigAdd(@, args.delta)]
 
-EnvEvents == {"set_enabled", "set_coeff", "set_bonded", "set_max", "ext_supply"}
+EnvEvents == {"set_enabled", "set_coeff", "set_bonded", "set_max", "set_max_abs", "ext_supply"}
 
 StepBroken(e, s, t, g) ==
     IF e.ev = "endblock"
@@ -259,13 +269,17 @@ BlockClass(pre, t, gov) ==
                    ELSE IF gov # <<>> THEN "other" ELSE "none")
 
 \* labels identifying a violation --------------------------------------------------------
+NativeDenom == "aISLM"
 CapClass(s, ts, g) ==
     LET room == Room(s) IN
-    IF ~s.enabled THEN "disabled"
-    ELSE IF BigSign(room) < 0 THEN "above-cap"
-    ELSE IF BigIsZero(room) THEN "at-cap"
-    ELSE IF g.lastTs # "0" /\ BigGT(BandHi(s.bonded, s.coeff, BigSub(ts, g.lastTs), YearMs(ts)), room) THEN "crossing"
-    ELSE "below-cap"
+    (IF ~s.enabled THEN "disabled"
+     ELSE IF BigSign(room) < 0 THEN "above-cap"
+     ELSE IF BigIsZero(room) THEN "at-cap"
+     ELSE IF g.lastTs # "0" /\ BigGT(BandHi(s.bonded, s.coeff, BigSub(ts, g.lastTs), YearMs(ts)), room) THEN "crossing"
+     ELSE "below-cap")
+    \* how the maximum is configured, where that is unusual
+    \o (IF BigIsZero(s.max) THEN ",cap=zero" ELSE "")
+    \o (IF s.maxDenom # NativeDenom THEN ",cap-label=other" ELSE "")
 \* which elapsed time explains the amount a first block after activation minted
 Explains(s, t, ts, elapsed) ==
     LiveBroken(s, t, ts, elapsed) \subseteq {"cap-not-switched-off", "switched-off-without-crossing"}
@@ -331,16 +345,20 @@ vars == <<st, gh, hist, cfg>>
 
 FarCap == "1000000000000000000000000000000000000000000"    \* 10^42: never reached
 
-\* the scenario's set-up (what the harness applies before the first step)
+\* the scenario's set-up (what the harness applies before the first step): the cap is placed
+\* either relative to the supply (cfg.dist, cfg.abs = NoAbs) or at an absolute value (cfg.abs)
+NoAbs == "-"
 SetUp(c) ==
-    LET s0 == [enabled |-> TRUE, coeff |-> c.coeff, max |-> "0", prevTs |-> "0",
+    LET s0 == [enabled |-> TRUE, coeff |-> c.coeff, max |-> "0", maxDenom |-> c.denom, prevTs |-> "0",
                supply |-> InitSupply, bonded |-> "0", fee |-> "0"]
         s1 == EnvPost(s0, "set_bonded", [bonded |-> c.bonded])
-        s2 == EnvPost(s1, "set_max", [dist |-> c.dist])
+        s2 == IF c.abs = NoAbs THEN EnvPost(s1, "set_max", [dist |-> c.dist, denom |-> c.denom])
+              ELSE EnvPost(s1, "set_max_abs", [max |-> c.abs, denom |-> c.denom])
     IN [s2 EXCEPT !.enabled = c.enabled]
 
 Init ==
-    /\ cfg \in [bonded : Bondeds, coeff : Coeffs, dist : MaxDists, enabled : BOOLEAN]
+    /\ cfg \in [bonded : Bondeds, coeff : Coeffs, dist : MaxDists, abs : {NoAbs}, denom : MaxDenoms, enabled : BOOLEAN]
+               \cup [bonded : Bondeds, coeff : Coeffs, dist : {"0"}, abs : MaxAbs, denom : MaxDenoms, enabled : BOOLEAN]
     /\ st = SetUp(cfg)
     /\ gh = GhostInit(st)
     /\ hist = <<>>
@@ -359,7 +377,8 @@ EndBlock(ts)  == Do("endblock", [ts |-> ts])
 SetEnabled(b) == Do("set_enabled", [enabled |-> b])
 SetCoeff(c)   == Do("set_coeff", [coeff |-> c])
 SetBonded(b)  == Do("set_bonded", [bonded |-> b])
-SetMax(d)     == Do("set_max", [dist |-> d])
+SetMax(d, dn) == Do("set_max", [dist |-> d, denom |-> dn])
+SetMaxAbs(a, dn) == Do("set_max_abs", [max |-> a, denom |-> dn])
 ExtSupply(d)  == Do("ext_supply", [delta |-> d])
 
 \* Environment steps between two blocks commute up to the values they leave behind, so the
@@ -367,7 +386,7 @@ ExtSupply(d)  == Do("ext_supply", [delta |-> d])
 \* cap placed last, relative to the final supply); the simulation and the random driver do not
 \* have this restriction.
 EnvRank(ev) == CASE ev = "set_enabled" -> 1 [] ev = "set_coeff" -> 2 [] ev = "set_bonded" -> 3
-                 [] ev = "ext_supply" -> 4 [] ev = "set_max" -> 5 [] OTHER -> 0
+                 [] ev = "ext_supply" -> 4 [] ev \in {"set_max", "set_max_abs"} -> 5 [] OTHER -> 0
 LastRank == IF hist = <<>> THEN 0 ELSE EnvRank(hist[Len(hist)].ev)
 
 Next ==
@@ -377,7 +396,8 @@ Next ==
        \/ LastRank < 2 /\ \E c \in Coeffs : c # st.coeff /\ SetCoeff(c)
        \/ LastRank < 3 /\ \E b \in Bondeds : b # st.bonded /\ SetBonded(b)
        \/ LastRank < 4 /\ \E d \in ExtDeltas : ExtSupply(d)
-       \/ LastRank < 5 /\ \E d \in MaxDists : SetMax(d)
+       \/ LastRank < 5 /\ \E d \in MaxDists : SetMax(d, st.maxDenom)     \* (the label changes with SetMaxAbs and the set-up only)
+       \/ LastRank < 5 /\ \E a \in MaxAbs, dn \in MaxDenoms : SetMaxAbs(a, dn)
 
 Spec == Init /\ [][Next]_vars
 
@@ -426,6 +446,8 @@ RandNearCap(h) ==
         m  == IF gh.lastTs = "0" THEN "0"
               ELSE DecRoundInt(MintAsBuilt(st.bonded, st.coeff, BigSub(ts, gh.lastTs), YearMs(ts)))
     IN BigAdd(m, RandomElement({"-1", "0", "1"}))
+\* the label: the native one half of the time
+RandDenom(h) == IF RandomElement({0, 1}) = 0 THEN NativeDenom ELSE RandomElement(MaxDenoms)
 SimNext ==
     /\ Len(hist) < MaxLen
     /\ \/ EndBlock(RandNextTs(hist))
@@ -437,8 +459,9 @@ SimNext ==
        \/ SetEnabled(~st.enabled)
        \/ SetCoeff(RandomElement(Coeffs))
        \/ SetBonded(RandomElement(Bondeds))
-       \/ SetMax(RandomElement(MaxDists))
-       \/ SetMax(RandNearCap(hist))
+       \/ SetMax(RandomElement(MaxDists), RandDenom(hist))
+       \/ SetMax(RandNearCap(hist), RandDenom(hist))
+       \/ SetMaxAbs(RandomElement(MaxAbs), RandDenom(hist))
        \/ ExtSupply(RandomElement(ExtDeltas))
 SimSpec == Init /\ [][SimNext \/ Emit]_vars
 =============================================================================
